@@ -338,6 +338,50 @@ def drive(lines):
 
 
 # --------------------------------------------------------------------------------------
+# snapshot of the tracklib sources the committed checks were validated on
+# --------------------------------------------------------------------------------------
+def source_digests(repo):
+    """{relative path: sha256 of the AST dump} for every tracklib/**/*.py (comments and layout do not count)"""
+    import ast
+    out = {}
+    root = os.path.join(repo, "tracklib")
+    for d, dirs, files in os.walk(root):
+        dirs[:] = sorted(x for x in dirs if x != "__pycache__")
+        for f in sorted(files):
+            if not f.endswith(".py"):
+                continue
+            path = os.path.join(d, f)
+            try:
+                with open(path, "rb") as fh:
+                    src = fh.read()
+                try:
+                    import warnings
+                    with warnings.catch_warnings():
+                        warnings.simplefilter("ignore")
+                        norm = ast.dump(ast.parse(src)).encode()
+                except SyntaxError:
+                    norm = src
+            except OSError:
+                continue
+            out[os.path.relpath(path, repo)] = hashlib.sha256(norm).hexdigest()
+    return out
+
+
+def changed_sources():
+    """files of /repo's tracklib package that differ from source_lock.json (None when there is no lock)"""
+    path = os.path.join(VERIF, "source_lock.json")
+    if not os.path.exists(path):
+        return None
+    try:
+        with open(path) as fh:
+            lock = json.load(fh)["files"]
+    except Exception:
+        return None
+    now = source_digests(REPO)
+    return sorted(f for f in set(lock) | set(now) if lock.get(f) != now.get(f))
+
+
+# --------------------------------------------------------------------------------------
 # evaluation of a batch of cases
 # --------------------------------------------------------------------------------------
 def case_key(case):
@@ -535,6 +579,33 @@ def run_check(pid_, tier, seed):
     else:
         recs = evaluate_parallel(pid_, cases, with_model=False)
 
+    # ---- the code is not the code the committed checks were validated on: sample deeper.
+    # (Not a violation by itself. The quick tier's generators are sized for the every-change run on a
+    # known tree; a changed source is exactly when more of the input space should be visited.)
+    changed = changed_sources() if tier == "quick" else None
+    extra_cases = 0
+    if changed and not os.environ.get("VERIF_NO_ESCALATE"):
+        budget = float(os.environ.get("VERIF_ESCALATE_BUDGET", "75"))
+        k = 0
+        while time.time() - t0 < budget and k < 12:
+            if any(r["spec"] and not r.get("crash") and not excused(prop, known, r) for r in recs):
+                break
+            k += 1
+            rng_k = random.Random((seed + 7919 * k) * 1000003 + int(pid_[1:]))
+            more = list(prop.cases(rng_k, tier))
+            t1 = time.time()
+            try:
+                recs += evaluate_parallel(pid_, more, with_model=ok_build and not corr_broken)
+            except Exception as e:
+                corr_broken = "driver/correspondence machinery failed: %r" % e
+                recs += evaluate_parallel(pid_, more, with_model=False)
+            extra_cases += len(more)
+            if (time.time() - t1) * 2 > budget:      # one more round would blow the budget
+                break
+        notes.append("tracklib sources differ from the validated snapshot (%s): %d extra cases from %d more seeds" % (
+            ", ".join(changed[:6]) + (" ..." if len(changed) > 6 else ""), extra_cases, k))
+        say("note: %s" % notes[-1])
+
     crashes = [r for r in recs if r.get("crash")]
     if crashes:
         say("harness error: oracle crashed on %s: %s" % (json.dumps(crashes[0]["case"])[:300], crashes[0]["spec"]))
@@ -633,6 +704,8 @@ def run_check(pid_, tier, seed):
             "correspondence_disagreements": len(corr_fail),
             "transfer_failures": len(spec_fail), "transfer_failures_in_known_classes": len(spec_fail) - len(unexcused),
             "corpus_cases": len(corpus),
+            "sources_changed_since_validation": changed or [],
+            "extra_cases_after_source_change": extra_cases,
             "exhaustive": bool(prop.exhaustive_scopes(tier)),
             "exhaustive_scopes": prop.exhaustive_scopes(tier),
             "input_distribution": hist,
